@@ -251,7 +251,7 @@ def _seg_templates():
     out += ['{f:int(min=0)}', '{g:int(max=0)}', '{h:float(min=0,max=1)}']
     out += ['{f:float}', '{g:float(max=100)}', '{f:float(finite=False)}', '{g:float(max=100,finite=False)}',
             '{h:float(min=-5,finite=False)}']
-    out += ['{f}-{g}', '{f}.{g}', 'x{f}', '{f:int}x{g}', '{f}\\d', '{h}-{k}', 'x{h:ab}', 'a{b}', '{f}x', '{g:int}-{h}']
+    out += ['{f:int}-{g:int}', '{h:int}-{k:int(2)}', '{f}-{g}', '{f}.{g}', 'x{f}', '{f:int}x{g}', '{f}\\d', '{h}-{k}', 'x{h:ab}', 'a{b}', '{f}x', '{g:int}-{h}']
     return out
 
 
@@ -561,11 +561,11 @@ class Histories(Suite):
 
 POOL = ['/a', '/{f}', '/a/{g}', '/a/b', '/{f}/b', '/{f:int}/b', '/{f}-{g}', '/a/{g:path}', '/{f:ab}/{h}', '/x{f}/b',
         '/{f:int}x{g}', "/it's/{h}", '/a\\b/{h}', '/{f}/{k:path}/x', '/a/{h}/zz', '/{f}/b/7', '/b/{g:rest}',
-        '/{g:float(max=100,finite=False)}/b', '/{f:int(min=0)}/b']
+        '/{g:float(max=100,finite=False)}/b', '/{f:int(min=0)}/b', '/{f:int}-{g:int}/{h:int}']
 
 
 class PoolEnum(Suite):
-    """Exhaustive: every ordered selection of <= 2 (quick) / <= 3 (thorough) templates from a 19-template pool (incl.
+    """Exhaustive: every ordered selection of <= 2 (quick) / <= 3 (thorough) templates from a 20-template pool (incl.
     one unacceptable template and literals with quote / backslash) x both compile flags on the last add, all
     representative paths."""
 
